@@ -19,6 +19,9 @@ harness and rendered as a Gallina `case` term):
   [13, ctx, emax, raddr, cid?, family, [change..], probe]   a history of changes through one ExportMap
   [14, ..as 9.., [accept_all, [rt8..]]]   process_nlri_change with a real RtcFilter (from_paths)
   [15, [[local_pref, filtered, nexthop_invalid]..]]   the change stream of the real Table::restale_llgr for one destination
+  [17, has_family, ctx, emax, raddr, cid?, family, [change..], policy?, [[dest, key]..]]   the real handle_prefix_update for every change, into the real PendingTx
+  [18, 1, ctx, emax, raddr, cid?, family, [change..] before, policy1?, probes, [change..] walk, policy2?]   then the real apply_refresh_walk
+  [16, ..as 11..]                         the scenario of 11 through the real TableManager (insert_route, event channel, mark_llgr_stale)
   [12, ..as 9.., policy]                  process_nlri_change with a real one-statement table::PolicyAssignment
                                           policy = [nh_action?, med_action?, statement disposition, default disposition, as_prepend?]
 with attr = [code, flags, kind(0 Val,1 Bin,2 Opaque), payload], ip = [0|1, bytes],
@@ -211,6 +214,26 @@ def case_coq(c):
         body = 'CProcessPol %s %d %s %s %s %s %s (Build_stmt %s %s %s) %s %s' % (
             c_ctx(c[1]), c[2], c_ip(c[3]), copt(c[4], c_num), c_change(c[5]), c_emap(c[6]), cbytes(c[7]),
             copt(pol[0], c_nha), copt(pol[1], c_med), dn[pol[2]], copt(pol[4] if len(pol) > 4 else [], c_pre), dn[pol[3]])
+    elif t in (17, 18):
+        dn = ['DPass', 'DAccept', 'DReject']
+        def c_nha(a):
+            return ['(NaAddress %s)' % c_ip(a[1]) if a[0] == 0 else None, 'NaSelf', 'NaPeer', 'NaUnchanged'][a[0]] if a[0] else '(NaAddress %s)' % c_ip(a[1])
+        def c_med(a):
+            return '(%s (%d)%%Z)' % ('MedMod' if a[0] == 0 else 'MedReplace', a[1])
+        def c_pre(a):
+            return '(Build_prepend_action %d %d %s)' % (a[0], a[1], c_bool(a[2]))
+        def c_pol(pol):
+            return '(Build_stmt %s %s %s, %s, %s)' % (copt(pol[0], c_nha), copt(pol[1], c_med), dn[pol[2]],
+                                                       copt(pol[4] if len(pol) > 4 else [], c_pre), dn[pol[3]])
+        if t == 17:
+            body = 'CUpdates %s %s %d %s %s %s %s %s' % (
+                c_bool(c[1]), c_ctx(c[2]), c[3], c_ip(c[4]), copt(c[5], c_num), cl([c_change(ch) for ch in c[7]]),
+                copt(c[8], c_pol), cl(['(%d, %d)' % (dk[0], dk[1]) for dk in c[9]]))
+        else:
+            body = 'CRefresh %s %d %s %s %s %s %s %s %s' % (
+                c_ctx(c[2]), c[3], c_ip(c[4]), copt(c[5], c_num), cl([c_change(ch) for ch in c[7]]),
+                cl([c_change(ch) for ch in c[10]]), copt(c[8], c_pol), copt(c[11], c_pol),
+                cl(['(%d, %d)' % (dk[0], dk[1]) for dk in c[9]]))
     elif t == 15:
         # the eligible paths in their order after marking: by LOCAL_PREF, highest first (all
         # paths are the marked peer's, so staleness does not separate them)
@@ -228,7 +251,7 @@ def case_coq(c):
     elif t == 13:
         body = 'CHistory %s %d %s %s %s %s' % (c_ctx(c[1]), c[2], c_ip(c[3]), copt(c[4], c_num),
                                                cl([c_change(ch) for ch in c[6]]), cbytes(c[7]))
-    elif t == 11:
+    elif t in (11, 16):
         body = 'CLlgrScenario %s %d %s %s %s %s %s' % (c_ctx(c[1]), c[2], c_ip(c[3]), copt(c[4], c_num),
                                                        c_src(c[5])[len('(SrcPeer '):-1], copt(c[6], c_nh), c_attrs(c[7]))
     else:
@@ -457,6 +480,10 @@ def source_fingerprint(repo):
         h.update(_strip_rust(ev[a:b]).encode())
         a = ev.find('if !is_as_loop(')
         h.update(_strip_rust(ev[a - 400:a + 600]).encode())
+        for start, end in (('fn handle_prefix_update', 'async fn rx_msg'), ('fn apply_refresh_walk', 'async fn apply_outputs')):
+            a = ev.find(start)
+            b = ev.find(end, a)
+            h.update(_strip_rust(ev[a:b]).encode())
         tb = open(os.path.join(repo, 'table/src/lib.rs')).read()
         a = tb.find('pub fn restale_llgr')
         b = tb.find('pub fn drop_no_llgr', a)
@@ -469,7 +496,7 @@ def source_fingerprint(repo):
 class Prop:
     pid = 'C09'
     props_file = 'Props/C09.v'
-    required_theorems = ['no_echo', 'no_ibgp_nonclient_to_nonclient', 'no_rs_boundary_crossing', 'loops_never_installed', 'ebgp_rewrite', 'ebgp_any_policy', 'ibgp_rewrite', 'ibgp_local_pref_any_policy', 'reflection_adds_originator_and_cluster', 'confed_rewrite', 'llgr_stale_marked', 'llgr_stale_readvertised', 'llgr_stale_readvertised_refuted', 'unknown_attr_rule', 'unknown_attr_rule_any_policy', 'as_path_prepend_spec', 'as_path_full_segment_rule', 'as_path_strip_confed_spec', 'as_path_count_spec', 'ebgp_policy_med', 'policy_actions_keep_decodable', 'no_panic_on_decodable', 'as_path_view_unambiguous', 'llgr_view_refreshed', 'llgr_refresh_addpath', 'llgr_refresh_best_only', 'llgr_stream_best_only', 'as_path_prepend_total', 'propagation_exactly_where_allowed', 'kernel_routes_withheld_from_nonclient_ibgp', 'best_only_complete', 'history_view_allowed', 'process_change_r_lower', 'process_change_r_lift', 'policy_prepend_then_export', 'loop_free_installed', 'rtc_filter_is_a_policy_wrapper', 'export_map_tracks_view', 'export_map_tracks_view_history']
+    required_theorems = ['no_echo', 'no_ibgp_nonclient_to_nonclient', 'no_rs_boundary_crossing', 'loops_never_installed', 'ebgp_rewrite', 'ebgp_any_policy', 'ibgp_rewrite', 'ibgp_local_pref_any_policy', 'reflection_adds_originator_and_cluster', 'confed_rewrite', 'llgr_stale_marked', 'llgr_stale_readvertised', 'llgr_stale_readvertised_refuted', 'unknown_attr_rule', 'unknown_attr_rule_any_policy', 'as_path_prepend_spec', 'as_path_full_segment_rule', 'as_path_strip_confed_spec', 'as_path_count_spec', 'ebgp_policy_med', 'policy_actions_keep_decodable', 'no_panic_on_decodable', 'as_path_view_unambiguous', 'llgr_view_refreshed', 'llgr_refresh_addpath', 'llgr_refresh_best_only', 'llgr_stream_best_only', 'as_path_prepend_total', 'export_map_covers_view_addpath', 'export_map_covers_view_addpath_history', 'llgr_stream_addpath', 'no_llgr_route_withdrawn', 'llgr_scenario_full_without_no_llgr', 'export_map_within_view_addpath', 'export_map_exact_addpath_history', 'queued_announcements_are_advertised', 'family_not_negotiated_sends_nothing', 'refresh_announcements_are_advertised', 'propagation_exactly_where_allowed', 'kernel_routes_withheld_from_nonclient_ibgp', 'best_only_complete', 'history_view_allowed', 'process_change_r_lower', 'process_change_r_lift', 'policy_prepend_then_export', 'loop_free_installed', 'rtc_filter_is_a_policy_wrapper', 'export_map_tracks_view', 'export_map_tracks_view_history']
     correspondence_name = ('Model/Export.v run_case vs daemon/src/event/export.rs + packet/src/bgp.rs AS_PATH edits '
                            '(harness/daemon/export_hx.rs)')
     rule = ('cases = one call of a real function each (AS_PATH edit, is_as_loop, export_attrs, pre_policy_defaults, '
@@ -490,11 +517,16 @@ class Prop:
         'None or a one-statement table::PolicyAssignment with next-hop / MED / as-prepend actions and accept / reject '
         '(model: stmt_policy_r, which can panic like the code); conditions, the other actions and multi-statement chains '
         'are property C14',
+        'the caller: the real PeerSession::handle_prefix_update (family negotiated or not, its own send-max lookup, address, cluster id, export '
+        'context, session export policy) and the real PendingTx::reach / unreach / drain_messages are run on histories (kind 17); the RTC branch '
+        'of handle_prefix_update (VPN families) and BMP senders are not entered; the real PeerSession::apply_refresh_walk runs after such a '
+        'history, under the same or another session export policy (kind 18)',
         'BMP Adj-RIB-Out notifications of process_nlri_change are passed as None (they do not feed back); the RTC filter is None or a real '
         'RtcFilter built with from_paths from wildcard / exact-match RTC NLRIs (model: with_rtc, a wrapper around the policy)',
         'HashSet iteration order of the Add-Path withdrawals and the partition_point position of an injected LOCAL_PREF in a '
         'vector that is not partitioned by code are compared modulo order (the property does not constrain them)',
-        'the LLGR scenario runs the real Table::insert / Table::restale_llgr on a one-destination, one-path table; the '
+        'the LLGR scenario runs the real Table::insert / restale_llgr / drop_no_llgr on a one-destination, one-path table, and '
+        'once more through the real TableManager (insert_route, the registered neighbour channel, mark_llgr_stale); the '
         'model of restale_llgr\'s change stream (restale_llgr_changes) takes the re-sorted eligible path list as an input '
         '(sorting and eligibility are the Rib properties C02/C06) and is tied to the real table for that shape only',
     ]
@@ -680,6 +712,396 @@ class Prop:
                     for confed in (0, CONFED_ID):
                         yield s, d, cid, confed
 
+    # ================================================================ audit classes: enumerated on every run
+    # (no randomness: every clause of the property and every branch of the anchored code has a
+    # class here, with the boundary values on both sides of each comparison; classify() tags them)
+    A_RX = [0, [10, 0, 0, 1]]                 # the receiver's address
+    A_PEER = [0, [10, 0, 0, 2]]
+    A_PEER6 = [1, [0x20, 1, 0xd, 0xb8] + [0] * 11 + [2]]
+    OWN_RID = 0x01000001
+    OWN_CID = 0x01020304
+    NO_LLGR = [255, 255, 0, 7]
+    # AS numbers whose octets look like segment headers / counts
+    HDR_ASNS = [0x02010000, 0x03FF0203, 65002, 0x01020304, 0x04000000, 0x0000FDE9]
+
+    def a_ctx(self, role, confed=0, laddr=0):
+        la = [0, [192, 0, 2, 1]] if laddr in (0, 3) else [1, [0x20, 1, 0xd, 0xb8] + [0] * 11 + [0xfe]]
+        return [role, LOCAL_AS, la, [self.LL] if laddr in (2, 3) else [], confed]
+
+    def a_src(self, kind, llgr=0, addr=None):
+        """kind: 'local' | 'kernel' | role number"""
+        if kind == 'local':
+            return [0]
+        if kind == 'kernel':
+            return [1]
+        rasn = LOCAL_AS if kind in (IBGP, RRC) else 65002
+        return [2, addr or self.A_PEER, rasn, LOCAL_AS, 0x0a000002, kind, llgr]
+
+    def a_path_attr(self, segs):
+        return [AS_PATH, 0x40, 1, enc_path(segs)]
+
+    def a_one(self, x, emax, cid, path, em=None, fam=IPV4, bc=1, ac=1, rep=None):
+        ch = [fam, 1, bc, ac, rep or [], [path] if isinstance(path[0], int) else path]
+        return [x, emax, self.A_RX, cid, ch, em if em is not None else ([0] if emax == 1 else [2, []]), [1, 2]]
+
+    def cid_for(self, d):
+        return [self.OWN_CID] if d in (IBGP, RRC) else []
+
+    def gen_audit(self):
+        out = []
+
+        def add(cls, case):
+            out.append((cls, case))
+        big = lambda n, k=0: [self.HDR_ASNS[(i + k) % len(self.HDR_ASNS)] for i in range(n)]
+        # ---- AS_PATH edits: head type x count byte at every boundary, AS octets that look like headers,
+        # a second segment behind so that a lost step shows
+        tail = [2, 1] + be32(LOCAL_AS)
+        for b0 in (1, 2, 3, 4):
+            for n in (0, 1, 63, 64, 127, 128, 253, 254, 255):
+                a = [AS_PATH, 0x40, 1, [b0, n] + [b for v in big(n) for b in be32(v)] + tail]
+                add('cls_path_count_boundaries', [0, 2, 65003, a])
+                add('cls_path_count_boundaries', [0, 3, 65003, a])
+                add('cls_path_count_boundaries', [1, a])
+                add('cls_path_count_boundaries', [2, [a], LOCAL_AS, 0])
+                add('cls_path_count_boundaries', [2, [a], 64999, LOCAL_AS])
+        for b0 in (0, 5, 255):
+            for n in (0, 1, 255):
+                a = [AS_PATH, 0x40, 1, [b0, n] + [b for v in big(n) for b in be32(v)]]
+                for cse in ([0, 2, 65003, a], [0, 3, 65003, a], [1, a], [2, [a], 65002, 0]):
+                    add('cls_path_bad_type_head', cse)
+        for asn in (0, 1, 255, 256, 65535, 65536, 23456, 2147483648, 4294967295, 0x02010000, 0x03ff0000):
+            for ty in (2, 3):
+                for head in ([], [(ty, [65002])], [(5 - ty, [65002])]):
+                    add('cls_prepend_asn_boundaries', [0, ty, asn, self.a_path_attr(head)])
+        # ---- every segment type at every position (1..3 segments), an empty / a full segment at each position
+        for n in (1, 2, 3):
+            for types in itertools.product((1, 2, 3, 4), repeat=n):
+                base = [(t, [64512 + k]) for k, t in enumerate(types)]
+                variants = [base]
+                for k in range(n):
+                    variants.append(base[:k] + [(types[k], [])] + base[k + 1:])
+                    if n <= 2:
+                        variants.append(base[:k] + [(types[k], big(255, k))] + base[k + 1:])
+                for v in variants:
+                    a = self.a_path_attr(v)
+                    add('cls_strip_every_type_position', [1, a])
+                    if n <= 2:
+                        add('cls_strip_every_type_position', [0, 2 + (n % 2), LOCAL_AS, a])
+        # ---- the local AS / confederation id at the first / last place of each kind of segment, of the
+        # first / last segment, behind a full segment; confederation id below, above and equal to the local AS
+        for t in (1, 2, 3, 4):
+            for where in ('first', 'last', 'last255'):
+                for which in (0, 1):
+                    for confed in (0, 65100, 65000, LOCAL_AS):
+                        for target in ('local', 'confed'):
+                            if target == 'confed' and confed in (0, LOCAL_AS):
+                                continue
+                            asn = LOCAL_AS if target == 'local' else confed
+                            if where == 'first':
+                                seg = (t, [asn, 64512, 64513])
+                            elif where == 'last':
+                                seg = (t, [64512, 64513, asn])
+                            else:
+                                seg = (t, big(254) + [asn])
+                            other = (2 if t != 2 else 1, [64600, 64601])
+                            segs = [seg, other] if which == 0 else [other, seg]
+                            attrs = [[ORIGIN, 0x40, 0, 0], self.a_path_attr(segs)]
+                            add('cls_loop_position', [2, attrs, LOCAL_AS, confed])
+                            if where != 'last255':
+                                for role in ROLES:
+                                    add('cls_loop_position_rx', [10, self.a_ctx(role, confed), self.OWN_RID, self.cid_for(role), attrs])
+        # near misses: neighbours of the local AS, the local AS split over two AS numbers' octets
+        for asn in (LOCAL_AS - 1, LOCAL_AS + 1, LOCAL_AS << 16, LOCAL_AS >> 8):
+            attrs = [[ORIGIN, 0x40, 0, 0], self.a_path_attr([(2, [asn & 0xffffffff, 64512])])]
+            add('cls_loop_near_miss', [2, attrs, LOCAL_AS, 0])
+            add('cls_loop_near_miss', [10, self.a_ctx(EBGP), self.OWN_RID, [], attrs])
+        attrs = [[ORIGIN, 0x40, 0, 0], self.a_path_attr([(2, [0x0000FDE9 >> 8, (0xE9 << 24) | 0x00FDE9])])]
+        add('cls_loop_near_miss', [2, attrs, LOCAL_AS, 0])
+        # ---- export_attrs: every receiver role x confederation configuration x path shape
+        shapes = [None, []]
+        shapes += [[(t, [64512])] for t in (1, 2, 3, 4)]
+        shapes += [[(t, big(255)), (2, [64600])] for t in (1, 2, 3, 4)]
+        shapes += [[(t, big(254)), (2, [64600])] for t in (2, 3)]
+        shapes += [[(t1, [64512, 64513]), (t2, [64600])] for t1 in (1, 2, 3, 4) for t2 in (1, 2, 3, 4)]
+        shapes += [[(3, [64512]), (4, [64513]), (2, [64600])], [(2, [64512]), (3, [64513]), (2, [64600])],
+                   [(4, [64512]), (1, [64513]), (3, [64600])], [(3, []), (2, [64600])], [(2, []), (3, [64513])]]
+        for role in ROLES:
+            for confed in (0, 65100, 65000, LOCAL_AS):
+                for sh in shapes:
+                    attrs = [[ORIGIN, 0x40, 0, 0]] + ([self.a_path_attr(sh)] if sh is not None else []) + \
+                            [[MED, 0x80, 0, 7], [LOCAL_PREF, 0x40, 0, 200]]
+                    add('cls_export_role_confed_path', [3, self.a_ctx(role, confed), attrs])
+        # ---- MED: received / locally set / policy-set, per source kind x receiver role
+        for sk in ('local', 'kernel', EBGP, IBGP, RRC, CONFED, RS):
+            for d in ROLES:
+                for med in (None, 0, 4294967295):
+                    for pol in (None, [1, 5], [0, 7], [0, -3]):
+                        attrs = [[ORIGIN, 0x40, 0, 0], self.a_path_attr([(2, [65002])])] + ([[MED, 0x80, 0, med]] if med is not None else [])
+                        p = [1, self.a_src(sk), [[0, [10, 0, 0, 9]]], attrs]
+                        c = self.a_one(self.a_ctx(d), 1, self.cid_for(d), p)
+                        if pol is None:
+                            add('cls_med_by_role_pair', [9] + c)
+                        else:
+                            add('cls_med_by_role_pair', [12] + c + [[[], [pol], 1, 2, []]])
+        # MED action clamps at the u32 ends
+        for cur in (0, 1, 4294967295):
+            for act in ([0, -1], [0, 0], [0, 1], [0, 4294967295], [0, 4294967296], [0, -4294967296],
+                        [1, -1], [1, 0], [1, 4294967295], [1, 4294967296]):
+                for d in (EBGP, IBGP):
+                    attrs = [[ORIGIN, 0x40, 0, 0], self.a_path_attr([(2, [65002])]), [MED, 0x80, 0, cur]]
+                    p = [1, self.a_src(EBGP), [[0, [10, 0, 0, 9]]], attrs]
+                    add('cls_med_clamp', [12] + self.a_one(self.a_ctx(d), 1, self.cid_for(d), p) + [[[], [act], 1, 2, []]])
+        # ---- next hop: stored kind x session address kind x origin x receiver role x family
+        nhs = [[], [[0, [10, 0, 0, 9]]], [[0, [0, 0, 0, 0]]], [[1, self.A_PEER6[1]]], [[1, [0] * 16]], [[2, self.A_PEER6[1], self.LL]],
+               [[2, [0] * 16, self.LL]]]
+        for nh in nhs:
+            for la in (0, 1, 2, 3):
+                for il in (0, 1):
+                    for role in ROLES:
+                        for fam in (IPV4, IPV6, FLOWSPEC4, FLOWSPEC6, FLOWSPEC4_VPN, FLOWSPEC6_VPN):
+                            if fam not in (IPV4, FLOWSPEC6_VPN) and (nh or la == 1):
+                                continue
+                            add('cls_nexthop_default', [4, self.a_ctx(role, 0, la), [[ORIGIN, 0x40, 0, 0], [MED, 0x80, 0, 1]], nh, fam, il])
+        # ... and under the export policy's next-hop actions
+        for nh in ([], [[0, [10, 0, 0, 9]]], [[2, self.A_PEER6[1], self.LL]], [[0, [0, 0, 0, 0]]]):
+            for la in (0, 2):
+                for sk in ('local', EBGP):
+                    for d in ROLES:
+                        for act in ([1], [3], [0, [0, [10, 0, 0, 77]]], [0, self.A_PEER6], [2]):
+                            sk2 = RS if (d == RS and sk == EBGP) else sk
+                            p = [1, self.a_src(sk2), nh, [[ORIGIN, 0x40, 0, 0], self.a_path_attr([(2, [65002])])]]
+                            add('cls_nexthop_policy_action',
+                                [12] + self.a_one(self.a_ctx(d, 0, la), 1, self.cid_for(d), p) + [[[act], [], 1, 2, []]])
+        # ---- ORIGINATOR_ID / CLUSTER_LIST at the boundaries
+        own = be32(self.OWN_CID)
+
+        def clist(L, where):
+            ids = [0x0a0a0a00 + (k % 200) for k in range(L)]
+            b = [x for i in ids for x in be32(i)]
+            if where == 'first' and L >= 1:
+                b[0:4] = own
+            elif where == 'last' and L >= 1:
+                b[-4:] = own
+            elif where == 'middle' and L >= 3:
+                b[4 * (L // 2):4 * (L // 2) + 4] = own
+            elif where == 'misaligned' and L >= 2:
+                b[2:6] = own                      # own id across two entries: chunks(4) must not see it
+            elif where == 'ragged':
+                b = b + own[:2]
+            return b
+        cl_variants = [None]
+        for L in (0, 1, 2, 3, 63, 64, 255):
+            for where in ('absent', 'first', 'last', 'middle', 'misaligned', 'ragged'):
+                if (where in ('first', 'last') and L < 1) or (where == 'middle' and L < 3) or (where == 'misaligned' and L < 2):
+                    continue
+                if L in (63, 64, 255) and where in ('middle', 'ragged'):
+                    continue
+                cl_variants.append(clist(L, where))
+        for clv in cl_variants:
+            for orig in (None, self.OWN_RID, self.OWN_RID + 1, self.OWN_RID - 1, 0):
+                if clv is not None and len(clv) > 16 and orig not in (None, self.OWN_RID):
+                    continue
+                for role in (IBGP, RRC, EBGP):
+                    attrs = [[ORIGIN, 0x40, 0, 0], self.a_path_attr([(2, [65002])])]
+                    if orig is not None:
+                        attrs.append([ORIGINATOR_ID, 0x80, 0, orig])
+                    if clv is not None:
+                        attrs.append([CLUSTER_LIST, 0x80, 1, clv])
+                    add('cls_rr_loop_boundaries', [10, self.a_ctx(role), self.OWN_RID, self.cid_for(role), attrs])
+        for L in (None, 0, 1, 63, 64, 255):
+            for orig in (None, 0x0a000009):
+                attrs = [[ORIGIN, 0x40, 0, 0]] + ([[ORIGINATOR_ID, 0x80, 0, orig]] if orig is not None else []) + \
+                        ([[CLUSTER_LIST, 0x80, 1, clist(L, 'absent')]] if L is not None else [])
+                add('cls_reflect_list_sizes', [5, attrs, 0x0a000002, self.OWN_CID])
+                if L in (None, 1, 64, 255):
+                    p = [1, self.a_src(RRC), [[0, [10, 0, 0, 9]]], attrs + [self.a_path_attr([(2, [65002])])]]
+                    for d in (IBGP, RRC):
+                        for emax in (1, 2):
+                            add('cls_reflect_list_sizes', [9] + self.a_one(self.a_ctx(d), emax, [self.OWN_CID], p))
+        # ---- unknown attributes: every combination of optional x transitive x partial x extended-length
+        for hi in range(16):
+            for low in ((0, 0xf) if hi in (0xc, 0x8) else (0,)):
+                for role in ROLES:
+                    for dl in (1, 256):
+                        attrs = [[ORIGIN, 0x40, 0, 0], self.a_path_attr([(2, [65002])]),
+                                 [99, (hi << 4) | low, 2, [(7 * k) % 256 for k in range(dl)]]]
+                        add('cls_unknown_flag_combinations', [3, self.a_ctx(role), attrs])
+        for role in ROLES:
+            attrs = [[ORIGIN, 0x40, 0, 0], [11, 0xc0, 2, []], [255, 0xe0, 2, [1]], [128, 0x80, 2, [2]], [200, 0x90, 2, [3]],
+                     self.a_path_attr([(2, [65002])])]
+            add('cls_unknown_flag_combinations', [3, self.a_ctx(role), attrs])
+        # ---- LLGR_STALE / NO_LLGR: what the COMMUNITY attribute holds when a stale route is exported
+        llgr, nol, oth = LLGR_STALE, self.NO_LLGR, [253, 233, 0, 1]
+        comm_variants = [None, [], nol, llgr, nol + llgr, llgr + nol, oth, oth * 63 + llgr, oth * 64, oth * 63 + nol,
+                         [0, 255, 255, 0, 6, 0, 0, 0], [255, 255, 0], oth + [255, 255, 0, 6][:3], [0, 6, 255, 255]]
+        for cv in comm_variants:
+            base = [[ORIGIN, 0x40, 0, 0], self.a_path_attr([(2, [65002])])] + ([[COMMUNITY, 0xC0, 1, cv]] if cv is not None else [])
+            add('cls_llgr_community_shapes', [6, base])
+            for stale in (0, 1):
+                for d in ROLES:
+                    sk = RS if d == RS else (RRC if d in (IBGP, RRC) else EBGP)
+                    p = [1, self.a_src(sk, stale), [[0, [10, 0, 0, 9]]], base]
+                    add('cls_llgr_community_shapes', [9] + self.a_one(self.a_ctx(d), 1 + stale, self.cid_for(d), p))
+        # ... and through the real table: Table::insert, export, restale_llgr + drop_no_llgr, export
+        for cv in comm_variants:
+            base = [[ORIGIN, 0x40, 0, 0], self.a_path_attr([(2, [65002])])] + ([[COMMUNITY, 0xC0, 1, cv]] if cv is not None else [])
+            for d in ROLES:
+                sk = RS if d == RS else (RRC if d in (IBGP, RRC) else EBGP)
+                for emax in (1, 2):
+                    add('cls_llgr_no_llgr_real_table', [11, self.a_ctx(d), emax, self.A_RX, self.cid_for(d), self.a_src(sk), [[0, [10, 0, 0, 9]]], base])
+        # ---- route-server boundary, with the route server's own (local / kernel) routes
+        for sk in ('local', 'kernel', EBGP, RS, IBGP, RRC, CONFED):
+            for d in ROLES:
+                for emax in (1, 2):
+                    p = [1, self.a_src(sk), [[0, [10, 0, 0, 9]]], [[ORIGIN, 0x40, 0, 0], self.a_path_attr([(2, [65002])])]]
+                    add('cls_rs_boundary' if (d == RS or sk == RS) else 'cls_role_pair', [9] + self.a_one(self.a_ctx(d), emax, self.cid_for(d), p))
+        # ---- process_nlri_change: every small state.  Three labelled paths (two that may go, one that is the
+        # receiver's own), every order of every subset, send-max 1 / 2 / 3, every recorded state of the
+        # export map, the change flags, a replaced id
+        mk = lambda pid, addr: [pid, self.a_src(EBGP, 0, addr), [[0, [10, 0, 0, 9]]], [[ORIGIN, 0x40, 0, pid % 3], self.a_path_attr([(2, [65002])])]]
+        labelled = [mk(1, self.A_PEER), mk(2, [0, [10, 0, 0, 3]]), mk(3, self.A_RX)]
+        orders = [[]]
+        for n in (1, 2, 3):
+            orders += [list(o) for o in itertools.permutations(labelled, n)]
+        x = self.a_ctx(EBGP)
+        for od in orders:
+            for bc, ac in ((1, 1), (0, 1), (1, 0)):
+                for sent in (0, 1):
+                    add('cls_process_states_best_only', [9] + self.a_one(x, 1, [], od if od else [], em=[1, [1]] if sent else [1, []], bc=bc, ac=ac) if od
+                        else [9, x, 1, self.A_RX, [], [IPV4, 1, bc, ac, [], []], [1, [1]] if sent else [1, []], [1, 2]])
+                for emax in (2, 3):
+                    for sent_ids in ([], [1], [1, 2], [3], [1, 2, 3]):
+                        for rep in ([], [1]):
+                            em = [2, [[1, sent_ids]]] if sent_ids else [2, []]
+                            add('cls_process_states_addpath', [9, x, emax, self.A_RX, [], [IPV4, 1, bc, ac, rep, od], em, [1, 2]])
+        for emax in (0, 255, 256, 65536):
+            add('cls_process_send_max_values', [9, x, emax, self.A_RX, [], [IPV4, 1, 1, 1, [], labelled], [2, [[1, [2]]]], [1, 2]])
+        # ---- send-max cuts the list: three paths that may go, every order, send-max below / at / above their number
+        l4 = [labelled[0], labelled[1], mk(4, [0, [10, 0, 0, 4]])]
+        for od in itertools.permutations(l4, 3):
+            for emax in (1, 2, 3, 4):
+                for sent_ids in ([], [1, 2], [1, 2, 4], [4]):
+                    em = ([1, [1]] if sent_ids else [1, []]) if emax == 1 else ([2, [[1, sent_ids]]] if sent_ids else [2, []])
+                    for rep in ([], [4]):
+                        add('cls_send_max_truncation', [9, x, emax, self.A_RX, [], [IPV4, 1, 1, 1, rep, list(od)], em, [1, 2]])
+        # ---- the echo test between IPv6 sessions, and an IPv4 / IPv6 pair that must not be confused
+        rx6 = self.A_PEER6
+        for saddr, ra in ((rx6, rx6), (rx6, [1, rx6[1][:15] + [3]]), ([0, rx6[1][:4]], rx6), (self.A_RX, [1, [0] * 12 + self.A_RX[1]])):
+            for emax in (1, 2):
+                pth = [1, self.a_src(EBGP, 0, saddr), [[1, rx6[1]]], [[ORIGIN, 0x40, 0, 0], self.a_path_attr([(2, [65002])])]]
+                c9 = self.a_one(self.a_ctx(EBGP, 0, 2), emax, [], pth)
+                c9[2] = ra
+                add('cls_echo_address_families', [9] + c9)
+        # ---- the as-prepend action next to the 255-entry limit, and its left-most form
+        for headn in (None, 0, 1, 253, 254, 255):
+            for rep_ in (0, 1, 2, 3):
+                for d in (EBGP, CONFED, IBGP):
+                    for lm in (0, 1):
+                        ty = 3 if d == CONFED else 2
+                        attrs = [[ORIGIN, 0x40, 0, 0]] + ([self.a_path_attr([(ty, big(headn)), (1, [64600])])] if headn is not None else [])
+                        p = [1, self.a_src(EBGP), [[0, [10, 0, 0, 9]]], attrs]
+                        add('cls_policy_prepend_limits',
+                            [12] + self.a_one(self.a_ctx(d, 65100 if d != IBGP else 0), 1, self.cid_for(d), p) + [[[], [], 1, 2, [[65009, rep_, lm]]]])
+        # ---- RTC filter: route targets first / last / misaligned / in a short tail / in a second attribute
+        rt1, rt2, rt3 = self.RTS[0], self.RTS[1], self.RTS[2]
+        ext_variants = [None, [], rt1, rt2 + rt1, rt2 + rt3 + rt1, rt2[:4] + rt1 + rt2[4:], rt2 + rt1[:7], rt1[:7], rt2 * 31 + rt1]
+        for ev in ext_variants:
+            for rtc in ([0, []], [0, [rt1]], [0, [rt3, rt1]], [1, []]):
+                attrs = [[ORIGIN, 0x40, 0, 0], self.a_path_attr([(2, [65002])])] + ([[EXT_COMMUNITY, 0xC0, 1, ev]] if ev is not None else [])
+                p = [1, self.a_src(EBGP), [[0, [10, 0, 0, 9]]], attrs]
+                for em in ([0], [1, [1]]):
+                    add('cls_rtc_filter', [14] + self.a_one(x, 1, [], p, em=em) + [rtc])
+        attrs = [[ORIGIN, 0x40, 0, 0], [EXT_COMMUNITY, 0xC0, 1, rt2], self.a_path_attr([(2, [65002])]), [EXT_COMMUNITY, 0xC0, 1, rt1]]
+        add('cls_rtc_filter', [14] + self.a_one(x, 2, [], [1, self.a_src(EBGP), [[0, [10, 0, 0, 9]]], attrs]) + [[0, [rt1]]])
+        # ---- LOCAL_PREF injection: every position the new attribute can take
+        lp_lists = [[], [[ORIGIN, 0x40, 0, 0]], [[ORIGIN, 0x40, 0, 0], self.a_path_attr([(2, [65002])]), [MED, 0x80, 0, 1]],
+                    [[ORIGIN, 0x40, 0, 0], self.a_path_attr([(2, [65002])]), [MED, 0x80, 0, 1], [COMMUNITY, 0xC0, 1, oth]],
+                    [[COMMUNITY, 0xC0, 1, oth]], [[MED, 0x80, 0, 1], [ATOMIC, 0x40, 1, []]],
+                    [[ORIGIN, 0x40, 0, 0], [LOCAL_PREF, 0x40, 0, 0]], [[LOCAL_PREF, 0x40, 0, 4294967295], [ORIGIN, 0x40, 0, 0]],
+                    [[COMMUNITY, 0xC0, 1, oth], [ORIGIN, 0x40, 0, 0]], [[ATOMIC, 0x40, 1, []], [MED, 0x80, 0, 1], [ORIGIN, 0x40, 0, 0]]]
+        for l in lp_lists:
+            add('cls_local_pref_positions', [7, l])
+            for role in (IBGP, RRC):
+                add('cls_local_pref_positions', [3, self.a_ctx(role), l])
+                add('cls_local_pref_positions', [10, self.a_ctx(role), self.OWN_RID, [self.OWN_CID], l])
+        # ---- unknown attributes next to a missing AS_PATH (the locally originated route)
+        for role in ROLES:
+            add('cls_unknown_without_as_path', [3, self.a_ctx(role, 65100), [[ORIGIN, 0x40, 0, 0], [99, 0xc0, 2, [1]], [200, 0x80, 2, [2]]]])
+        # ---- the family map of the wrong kind for the send-max, and no map at all
+        for emax, em in ((1, [2, [[1, [1, 2]]]]), (1, [2, []]), (2, [1, [1]]), (2, [1, []]), (2, [0]), (1, [0]), (3, [1, [1, 2]])):
+            for od in ([], [labelled[0]], [labelled[1], labelled[0]], [labelled[2], labelled[0]]):
+                for rep in ([], [1]):
+                    add('cls_process_map_kind', [9, x, emax, self.A_RX, [], [IPV4, 1, 1, 1, rep, od], em, [1, 2]])
+        # ---- every disposition of the statement x default of the assignment
+        for sd in (0, 1, 2):
+            for dd in (0, 1, 2):
+                for emax in (1, 2):
+                    for sent in (0, 1):
+                        em = ([1, [1]] if sent else [1, []]) if emax == 1 else ([2, [[1, [1]]]] if sent else [2, []])
+                        add('cls_policy_dispositions', [12] + self.a_one(x, emax, [], labelled[0], em=em) + [[[], [], sd, dd, []]])
+        # ---- fixed histories: announce, replace, the LLGR period begins (03ea310 stream), withdraw
+        for d in (EBGP, IBGP):
+            for emax in (1, 2):
+                sk = RRC if d == IBGP else EBGP
+                pa = [1, self.a_src(sk), [[0, [10, 0, 0, 9]]], [[ORIGIN, 0x40, 0, 0], self.a_path_attr([(2, [65002])])]]
+                pb = [1, self.a_src(sk), [[0, [10, 0, 0, 9]]], [[ORIGIN, 0x40, 0, 1], self.a_path_attr([(2, [65002, 65003])])]]
+                ps = [1, self.a_src(sk, 1), [[0, [10, 0, 0, 9]]], pb[3]]
+                p2 = [2, self.a_src(EBGP if d == EBGP else RRC, 0, [0, [10, 0, 0, 3]]), [[0, [10, 0, 0, 8]]], pa[3]]
+                hist = [[IPV4, 1, 1, 1, [], [pa]], [IPV4, 1, 1, 1, [1], [pb]], [IPV4, 1, 0, 1, [], [pb, p2]],
+                        [IPV4, 1, 1, 1, [1], [ps, p2]], [IPV4, 1, 1, 1, [], [p2]], [IPV4, 1, 1, 1, [], []],
+                        [IPV4, 2, 1, 1, [], [pa]], [IPV4, 1, 1, 1, [], []]]
+                for n in range(1, len(hist) + 1):
+                    add('cls_fixed_histories', [13, self.a_ctx(d), emax, self.A_RX, self.cid_for(d), IPV4, hist[:n], [1, 2]])
+        # ---- attribute kinds the decoder never produces (API-shaped): recognised codes carried as opaque
+        # blobs, a Val-typed AS_PATH (the unwrap panic); judged by the correspondence only
+        for code in (MED, LOCAL_PREF, AS_PATH, COMMUNITY, ORIGINATOR_ID, CLUSTER_LIST, AIGP):
+            for fl in (0xC0, 0x80):
+                for role in ROLES:
+                    add('cls_attr_kind_confusion', [3, self.a_ctx(role, 65100), [[ORIGIN, 0x40, 0, 0], [code, fl, 2, be32(LOCAL_AS)]]])
+        for role in ROLES:
+            add('cls_attr_kind_confusion', [3, self.a_ctx(role), [[ORIGIN, 0x40, 0, 0], [AS_PATH, 0x40, 0, 7]]])
+            add('cls_attr_kind_confusion', [2, [[AS_PATH, 0x40, 0, LOCAL_AS]], LOCAL_AS, 0])
+        # ---- destination and path ids at the ends of u32
+        for dest in (0, 1, 4294967295):
+            for pid in (0, 1, 4294967295):
+                pth = [pid, self.a_src(EBGP), [[0, [10, 0, 0, 9]]], [[ORIGIN, 0x40, 0, 0], self.a_path_attr([(2, [65002])])]]
+                for emax, em in ((1, [1, [dest]]), (1, [1, []]), (2, [2, [[dest, [pid]]]]), (2, [2, [[dest, [7]]]])):
+                    for rep in ([], [pid]):
+                        add('cls_id_boundaries', [9, x, emax, self.A_RX, [], [IPV4, dest, 1, 1, rep, [pth]], em, [dest, 1]])
+        # ---- the caller's arguments: role pairs, MED by role pair (with the session's policy) and the fixed
+        # histories once more through the real handle_prefix_update / PendingTx; a family not negotiated
+        for cls_, case_ in list(out):
+            if cls_ in ('cls_role_pair', 'cls_rs_boundary') and case_[0] == 9:
+                add('cls_caller_arguments', [17, 1, case_[1], case_[2], case_[3], case_[4], case_[5][0], [case_[5]], [], self.PROBES17])
+            elif cls_ == 'cls_med_by_role_pair' and case_[1][0] in (EBGP, IBGP, CONFED):
+                add('cls_caller_arguments', [17, 1, case_[1], case_[2], case_[3], case_[4], case_[5][0], [case_[5]],
+                                             [case_[8]] if case_[0] == 12 else [], self.PROBES17])
+            elif cls_ == 'cls_fixed_histories':
+                add('cls_caller_arguments', self.to_updates(case_, []))
+                if len(case_[6]) == 8:
+                    add('cls_caller_arguments', self.to_updates(case_, [], 0))
+        for d_ in ROLES:
+            for emax_ in (1, 2):
+                own = [3, self.a_src(RS if d_ == RS else EBGP, 0, self.A_RX), [[0, [10, 0, 0, 9]]], [[ORIGIN, 0x40, 0, 0], self.a_path_attr([(2, [65002])])]]
+                oth_ = [1, self.a_src(RS if d_ == RS else EBGP), [[0, [10, 0, 0, 9]]], own[3]]
+                for pl in ([own], [own, oth_], [oth_, own]):
+                    add('cls_caller_arguments', [17, 1, self.a_ctx(d_), emax_, self.A_RX, self.cid_for(d_), IPV4,
+                                                 [[IPV4, 1, 1, 1, [], pl]], [], self.PROBES17])
+                    add('cls_route_refresh', [18, 1, self.a_ctx(d_), emax_, self.A_RX, self.cid_for(d_), IPV4,
+                                              [[IPV4, 1, 1, 1, [], pl]], [], self.PROBES17, [[IPV4, 1, 1, 1, [], pl]], []])
+        # ---- route refresh: the fixed histories, then a walk under no / another export policy
+        for cls_, case_ in list(out):
+            if cls_ == 'cls_fixed_histories':
+                c17 = self.to_updates(case_, [])
+                for pol2 in ([], [[[], [[1, 5]], 1, 2, []]], [[[], [], 2, 1, []]], [[[[1]], [], 1, 2, []]]):
+                    add('cls_route_refresh', [18] + c17[1:] + [self.walk_of(case_[6]), pol2])
+        # ... the real-table scenario once more through the real TableManager (insert_route, the
+        # neighbour's event channel, mark_llgr_stale)
+        for cls_, case_ in list(out):
+            if cls_ == 'cls_llgr_no_llgr_real_table':
+                add('cls_llgr_no_llgr_table_manager', [16] + case_[1:])
+        return out
+
     def fingerprint_changed(self):
         from vp.util import REPO
         fp = os.path.join(os.path.dirname(os.path.abspath(__file__)), 'c09_fingerprint.json')
@@ -692,10 +1114,15 @@ class Prop:
     def gen_cases(self, rng, tier):
         cases = []
         scale = 1 if tier == 'quick' else 8
-        if tier == 'quick' and self.fingerprint_changed():
+        if tier == 'quick' and not os.environ.get('VERIF_C09_NO_ESCALATE') and self.fingerprint_changed():
             # the anchored code differs from the text the model was written against: go deeper
             scale = 4
             self.rule += ' [source fingerprint changed: quick run at 4x size]'
+        # --- the audit classes (deterministic, every run)
+        self._cls = {}
+        for cls, case in self.gen_audit():
+            self._cls[id(case)] = cls
+            cases.append(case)
         # --- AS_PATH edits
         for _ in range(250 * scale):
             mal = rng.random() < 0.25
@@ -734,6 +1161,7 @@ class Prop:
         for s, d, cid, confed in self.matrix():
             if confed == 0:
                 cases.append([8, s, d, cid])
+                self._cls[id(cases[-1])] = 'cls_role_matrix_predicates'
         # every (role, same AS / different AS) combination, also the inconsistent ones
         for r in ROLES:
             for rasn in (LOCAL_AS, 65002):
@@ -769,6 +1197,7 @@ class Prop:
                          self.gen_attrs(rng, mode)]
                     ch = [rng.choice([IPV4, IPV4, IPV4, IPV6, FLOWSPEC4]), 1, 1, 1, [], [p]]
                     cases.append([9, x, emax, self.ADDR4[0], cid, ch, [0] if emax == 1 else [2, []], [1, 2]])
+                    self._cls[id(cases[-1])] = 'cls_role_matrix_process'
         # --- process_nlri_change: random histories (several paths, export map pre-state, echo collisions)
         for _ in range(500 * scale):
             cases.append(self.gen_process(rng))
@@ -804,6 +1233,13 @@ class Prop:
         # two destinations and a small pool of paths, sources flipping to LLGR-stale in between
         for _ in range(150 * scale):
             cases.append(self.gen_history(rng))
+        # --- histories through the real handle_prefix_update and PendingTx
+        for _ in range(120 * scale):
+            h = self.gen_history(rng)
+            cases.append(self.to_updates(h, [self.gen_policy(rng)] if rng.random() < 0.4 else [], 1 if rng.random() < 0.92 else 0))
+        # --- a route refresh after a history, possibly under a new export policy
+        for _ in range(80 * scale):
+            cases.append(self.gen_refresh(rng))
         # --- the LLGR period begins for the source of an advertised route
         for s_, d, cid, confed in self.matrix():
             if s_[0] != 2 or confed:
@@ -890,6 +1326,26 @@ class Prop:
                             json.loads(json.dumps(cur))])
         return [13, x, emax, raddr, cid, fam, changes, [1, 2]]
 
+    PROBES17 = [[d_, k_] for d_ in (1, 2) for k_ in (0, 1, 2, 3, 4, 5)]
+
+    def to_updates(self, h, pol, has_family=1):
+        """a history (kind 13) as a run of the real handle_prefix_update (kind 17)"""
+        return [17, has_family, h[1], h[2], h[3], h[4], h[5], h[6], pol, self.PROBES17]
+
+    def walk_of(self, changes):
+        """what collect_loc_rib_paths reports for the destinations the history ends with"""
+        last = {}
+        for ch in changes:
+            last[ch[1]] = ch
+        return [[ch[0], ch[1], 1, 1, [], ch[5]] for d_, ch in sorted(last.items()) if ch[5]]
+
+    def gen_refresh(self, rng):
+        h = self.gen_history(rng)
+        pol1 = [self.gen_policy(rng)] if rng.random() < 0.3 else []
+        pol2 = [self.gen_policy(rng)] if rng.random() < 0.6 else []
+        c = self.to_updates(h, pol1)
+        return [18] + c[1:] + [self.walk_of(h[6]), pol2]
+
     def gen_policy(self, rng):
         nh = []
         k = rng.random()
@@ -960,10 +1416,15 @@ class Prop:
             lists = [c[4]]
         elif t in (9, 12, 14) and c[1][0] in (IBGP, RRC):
             lists = [p[3] for p in c[5][5]]
-        elif t == 11 and c[1][0] in (IBGP, RRC):
+        elif t in (11, 16) and c[1][0] in (IBGP, RRC):
             lists = [c[7]]
         elif t == 13 and c[1][0] in (IBGP, RRC):
             lists = [p[3] for ch in c[6] for p in ch[5]]
+        elif t in (17, 18) and c[2][0] in (IBGP, RRC):
+            lists = [p[3] for ch in c[7] + (c[10] if t == 18 else []) for p in ch[5]]
+            pols = [c[8]] + ([c[11]] if t == 18 else [])
+            if any(pl and (pl[0][1] or (len(pl[0]) > 4 and pl[0][4])) for pl in pols):
+                return any(find(l, LOCAL_PREF) is None for l in lists)
         else:
             return False
         if t == 12 and (c[8][1] or (len(c[8]) > 4 and c[8][4])):
@@ -983,8 +1444,10 @@ class Prop:
         if t in (9, 12, 13, 14):
             ops = [[o[0], o[1], o[2], o[3], srt(o[4]), o[5]] if o[0] == 1 else o for o in obs[0]]
             return [ops, obs[1]]
-        if t == 11:
+        if t in (11, 16):
             return [[[o[0], o[1], o[2], o[3], srt(o[4]), o[5]] if o[0] == 1 else o for o in ph] for ph in obs]
+        if t in (17, 18):
+            return [[[e_[0], e_[1], srt(e_[2])] if e_ and e_[0] == 1 else e_ for e_ in obs[0]], obs[1]]
         return obs
 
     # ---------------------------------------------------------------- Spec oracle
@@ -1067,6 +1530,18 @@ class Prop:
             return None
         if t in (9, 12, 14):
             return self.oracle_process(c, obs)
+        if t == 18:
+            if obs == [-1]:
+                return None
+            ops = [[1, dk[0], dk[1], e_[1], e_[2], []] for dk, e_ in zip(c[9], obs[0]) if e_ and e_[0] == 1]
+            return self.oracle_history([13, c[2], c[3], c[4], c[5], c[6], c[10], []], [ops, []], pol=(c[11][0] if c[11] else None))
+        if t == 17:
+            if obs == [-1]:
+                if all(attrs_wf(p_[3]) for ch in c[7] for p_ in ch[5]) and not (c[8] and len(c[8][0]) > 4 and c[8][0][4]):
+                    return 'handle_prefix_update panicked on decodable attributes'
+                return None
+            ops = [[1, dk[0], dk[1], e_[1], e_[2], []] for dk, e_ in zip(c[9], obs[0]) if e_ and e_[0] == 1]
+            return self.oracle_history([13, c[2], c[3], c[4], c[5], c[6], c[7], []], [ops, []], pol=(c[8][0] if c[8] else None))
         if t == 15:
             # RFC 9494 4.3 needs every eligible path of the marked peer to be looked at again by
             # the exporter: named as replaced once, and the best reported as changed
@@ -1082,9 +1557,11 @@ class Prop:
             return None
         if t == 13:
             return self.oracle_history(c, obs)
-        if t == 11:
+        if t in (11, 16):
+            if not attrs_wf(c[7]):
+                return None
             if obs == [-1]:
-                return 'LLGR scenario panicked' if attrs_wf(c[7]) else None
+                return 'LLGR scenario panicked'
             # the neighbour's view after both phases
             view = None
             for op in obs[0] + obs[1]:
@@ -1114,7 +1591,7 @@ class Prop:
             return None
         return None
 
-    def oracle_history(self, c, obs):
+    def oracle_history(self, c, obs, pol=None):
         """every Reach of the history is judged like a single-step advertisement against the
         paths of the changes for its destination (the path with the same id and attributes
         that explains it), so the never-rules and the rewrite rules are checked along the way"""
@@ -1137,7 +1614,8 @@ class Prop:
                 return 'history: advertisement of a path that is in no change'
             whys = []
             for p in cands:
-                one = [9, x, emax, raddr, cid, [fam, dest, 1, 1, [], [p]], [0], []]
+                one = [9, x, emax, raddr, cid, [fam, dest, 1, 1, [], [p]], [0], []] if pol is None else \
+                      [12, x, emax, raddr, cid, [fam, dest, 1, 1, [], [p]], [0], [], pol]
                 whys.append(self.oracle_process(one, [[[op[0], op[1], op[2] if emax != 1 else 0, op[3], op[4], op[5]]], []]))
             if all(whys):
                 return 'history: ' + whys[0]
@@ -1317,21 +1795,26 @@ class Prop:
             return (t, c[1][0], c[1][4] != 0, min(c[2], 2), bool(c[4]), srcs, ops, json.dumps(c[8]) if t == 12 else '')
         if t == 10:
             return (t, c[1][0], bool(c[3]), obs == [], self._shape(c[4]))
-        if t == 11:
+        if t in (11, 16):
             return (t, c[1][0], c[5][5], c[2], bool(c[4]), len(obs[0]), len(obs[1])) if obs[0] else None
         if t == 15:
             return (t, json.dumps([sp[1:] for sp in c[1]]), len(obs)) if obs != [-1] else None
+        if t in (17, 18):
+            return (t, c[2][0], min(c[3], 2), bool(c[8]), json.dumps([e_[:1] for e_ in obs[0]]), json.dumps(obs[1])) if any(obs[0]) else None
         if t == 13:
             return (t, c[1][0], min(c[2], 2), tuple((o[0], o[1], o[2]) for o in obs[0]), json.dumps(obs[1])) if obs[0] else None
         return None
 
     def classify(self, c, obs):
         names = ['prepend', 'strip_confed', 'is_as_loop', 'export_attrs', 'pre_policy_defaults', 'rr_reflect',
-                 'llgr_stale', 'inject_local_pref', 'suppress_predicates', 'process_nlri_change', 'rx_update', 'llgr_scenario', 'process_nlri_change_policy', 'history', 'process_nlri_change_rtc', 'restale_llgr_stream']
+                 'llgr_stale', 'inject_local_pref', 'suppress_predicates', 'process_nlri_change', 'rx_update', 'llgr_scenario', 'process_nlri_change_policy', 'history', 'process_nlri_change_rtc', 'restale_llgr_stream', 'llgr_scenario_table_manager', 'handle_prefix_update_pending_tx', 'apply_refresh_walk']
         tags = ['op_' + names[c[0]]]
+        cls = getattr(self, '_cls', {}).get(id(c))
+        if cls:
+            tags.append(cls)
         if obs == [-1]:
             tags.append('panic')
-        if c[0] in (3, 4, 9, 10, 11, 12, 13, 14):
+        if c[0] in (3, 4, 9, 10, 11, 12, 13, 14, 16):
             tags.append('dest_' + ROLE_NAMES[c[1][0]])
         # which branch of the model the case drives
         t = c[0]
